@@ -89,7 +89,9 @@ def _run_filter(case, ctx, which):
     sc = sched.Scenario(case)
     c09.labels(ctx, sc)
     gm, am = sc.models()
-    kwargs = {'with_altitude': False}
+    # the flag as a Python bool or as numpy.bool_ (an element of a boolean configuration array): both mean "switched off"
+    kwargs = {'with_altitude': np.False_ if case['sub'] % 3 == 0 else False}
+    ctx.label('flag_form=' + ('numpy_bool' if case['sub'] % 3 == 0 else 'bool'))
     step = sc.time_step()
     if step is not None:
         kwargs['time_step'] = step
@@ -177,6 +179,12 @@ def run_measurements(case, ctx):
         data = pd.DataFrame([[pva.VN + 0.1, pva.VE - 0.2, rng.uniform(-50, 50)]], index=[12.5], columns=['VN', 'VE', 'VD'])
         m = measurements.NedVelocity(data, sdv, arm)
     em = error_model.InsErrorModel(with_altitude=False)
+    # call history of the measurement object: fresh in 2D / used with a 3D model first (a 3D run before the 2D one on the same
+    # objects) / 2D, 3D, 2D again
+    order = case['sub'] % 3
+    ctx.label(f'history={["2D_first", "3D_first", "2D_3D_2D"][order]}')
+    if order == 1:
+        ctx.sut(m.compute_matrices, 12.5, pva, error_model.InsErrorModel(True))
     ret = ctx.sut(m.compute_matrices, 12.5, pva, em)
     ctx.check(ret is not None, 'none_at_present_time', '')
     z, H, R = ret
@@ -186,6 +194,11 @@ def run_measurements(case, ctx):
     # the 3D model on the same inputs: first two rows of z agree (the vertical content does not leak)
     z3, H3, R3 = m.compute_matrices(12.5, pva, error_model.InsErrorModel(True))
     ctx.check(np.array_equal(np.asarray(z3)[:2], np.asarray(z)), 'z_2d_differs_from_3d_rows', lambda: f'{z} vs {z3}')
+    ctx.check(np.shape(z3) == (3,) and np.shape(H3) == (3, 9) and np.shape(R3) == (3, 3), 'shape_3d', lambda: f'{np.shape(z3)} {np.shape(H3)} {np.shape(R3)}')
+    if order == 2:
+        z2, H2, R2 = ctx.sut(m.compute_matrices, 12.5, pva, em)
+        ctx.check(np.shape(z2) == (2,) and np.shape(H2) == (2, 7) and np.shape(R2) == (2, 2) and np.array_equal(z2, z) and np.array_equal(H2, H),
+                  'vertical_row_not_dropped', lambda: f'after a 3D call in between: {np.shape(z2)} {np.shape(H2)} {np.shape(R2)}')
     ctx.label(case['cls'], f"lever={case['lever']}", 'rates' if case['rates'] else 'no_rates')
     ctx.mark_nontrivial(True)
 
